@@ -570,9 +570,6 @@ func c04Matrix() []c04Prog {
 			if w == "no-later-use" && !strings.Contains(co, "-use") {
 				continue
 			}
-			if co == "closure" && w == "use-in-closure-after" {
-				continue // two closures capturing one variable: open finding kf-C01-closure-nested (gated feature)
-			}
 			for _, s := range []int64{0, 2} {
 				out = append(out, c04MatrixProgram(co, w, s, v, false))
 				v++
